@@ -300,8 +300,10 @@ class GaussianElectionModel(ConformalElectionModel):
             aggregate_votes.merge(aggregate_prediction_intervals, how="outer", on=aggregate)
             .fillna({f"results_{estimand}": 0, "predicted_lower": 0, "predicted_upper": 0})
             .assign(
-                lower=lambda x: x.predicted_lower + x[f"results_{estimand}"],
-                upper=lambda x: x.predicted_upper + x[f"results_{estimand}"],
+                # round the modeled part before adding the (whole) counted votes, so that votes arriving in
+                # reporting or unexpected units move the bounds by exactly that number of votes
+                lower=lambda x: x.predicted_lower.round(decimals=0) + x[f"results_{estimand}"],
+                upper=lambda x: x.predicted_upper.round(decimals=0) + x[f"results_{estimand}"],
             )
             .sort_values(aggregate)[aggregate + ["lower", "upper"]]
             .reset_index(drop=True)
